@@ -10,6 +10,7 @@ import LexprModel.Generated.Tables
 import LexprModel.SerdeDrv
 import LexprModel.Macro
 import LexprModel.Spec.ReaderExec
+import LexprModel.Spec.Exercised
 import LexprModel.ConsOps
 import LexprModel.ConsOpsDatum
 
@@ -801,6 +802,32 @@ def execSpecrd (t : List String) : String :=
   | some v => "ok " ++ encValue v
   | none => "none"
 
+/-- the alternatives of option digit `i` of a parser-option string (digit 3, nil, has three values) -/
+def altDigits (ro : String) (i : Nat) : List String :=
+  let cs := ro.toList
+  let cur := (cs.getD i '0')
+  let vals := if i == 3 then ['0', '1', '2'] else ['0', '1']
+  (vals.filter (· != cur)).map fun c => String.ofList (cs.set i c)
+
+def optIndex : Spec.OptName → Nat
+  | .kwPrefix => 0 | .kwPostfix => 1 | .kwOctothorpe => 2 | .nil => 3 | .t => 4 | .brackets => 5
+  | .string => 6 | .char => 7 | .racket => 8 | .leadingDigit => 9
+
+/-- `sens <fast> <R10> <hex>`: for each of the ten parser options, does changing it (alone) change the outcome of
+    `from_slice_custom` on the text?  One digit per option.  The model side also evaluates the frame theorem's
+    `exercised` set (Spec/Exercised.lean): an option the outcome is sensitive to must be in it (`C08_frame`);
+    the real side prints the same digits followed by `ok`. -/
+def execSens (t : List String) : String :=
+  let fast := t.getD 1 "1" == "1"
+  let ro := t.getD 2 ""
+  let data := unhex (t.getD 3 "")
+  let run (r : String) : String := encItem (resItem (fromTrait (mkCfg r fast) (initSt .slice data)))
+  let base := run ro
+  let bits := (List.range 10).map fun i => (altDigits ro i).any fun r => run r != base
+  let ex := (Spec.exercised (mkCfg ro fast) .slice data).map optIndex
+  let okFrame := (List.range 10).all fun i => !(bits.getD i false) || ex.contains i
+  String.ofList (bits.map fun b => if b then '1' else '0') ++ (if okFrame then " ok" else " FRAME-VIOLATED")
+
 def exec (line : String) : String :=
   let t := (line.trimAscii.toString.splitOn " ").filter (· != "")
   match t.head? with
@@ -821,6 +848,7 @@ def exec (line : String) : String :=
   | some "de" => execDe t
   | some "opts" => execOpts t
   | some "specrd" => execSpecrd t
+  | some "sens" => execSens t
   | some "clone" => execClone t
   | some "dclone" => execDclone t
   | some "consmut" => execConsmut t
